@@ -190,13 +190,30 @@ func livenessNeverFalse(w *World) {
 		w.Probe("liveness.busy_session")
 		w.Check("C14.never-false-teardown-busy-session")
 		nreg := int(time.Duration(busy)*time.Duration(T)*time.Second/regDelay) / 4 // busy=1: a quarter of a timeout of plugin time (plus the calls' round trips), busy=3: three quarters and more
-		for i := 0; i < nreg; i++ {
+		// the heartbeats have a sender of their own: they go out at the configured interval from the login on, also
+		// while the batch is still being written (a slow link lets the batch take a while to leave)
+		t0 := w.Net.Now()
+		stopBeats := make(chan struct{})
+		defer close(stopBeats)
+		c.Node.Go(func() {
+			for {
+				select {
+				case <-stopBeats:
+					return
+				case <-time.After(time.Duration(T) * time.Second / 3):
+					if c.IsClosed() {
+						return
+					}
+					c.Ping(true, token)
+				}
+			}
+		})
+		for i := 0; i < nreg && !c.IsClosed(); i++ {
 			c.Send(tNewProxy, M{"proxy_name": fmt.Sprintf("busy%d", i), "proxy_type": "stcp", "sk": "k"})
 		}
 		total := time.Duration(nreg) * regDelay
-		t0 := w.Net.Now()
-		for w.Net.Now()-t0 < total+time.Duration(T)*time.Second {
-			time.Sleep(time.Duration(T) * time.Second / 3)
+		for w.Net.Now()-t0 < 2*total+2*time.Duration(T)*time.Second {
+			time.Sleep(time.Second)
 			if c.IsClosed() {
 				answered := 0
 				c.mu.Lock()
@@ -208,14 +225,13 @@ func livenessNeverFalse(w *World) {
 				c.mu.Unlock()
 				sig := "busy-session-torn-down"
 				if answered < nreg && w.Net.Now()-t0 >= time.Duration(T)*time.Second-time.Second {
-					// closed a full timeout after the batch arrived, the batch still being worked on: the server's reader
-					// was busy with the registrations all that time and read none of the heartbeats
+					// closed a full timeout after the login, the batch still being worked on: the server's reader was
+					// busy with the registrations all that time and read none of the heartbeats
 					sig = "valid-heartbeats-starved-behind-slow-registrations"
 				}
-				viol("false-teardown", sig, "heartbeatTimeout %ds, valid heartbeats every %ds; the session also sent %d registrations which a server plugin takes %v each to decide (%v in all, %d answered so far): the server closed the session %v after the batch was sent", T, T/3, nreg, regDelay, total, answered, w.Net.Now()-t0)
+				viol("false-teardown", sig, "heartbeatTimeout %ds, valid heartbeats every %ds from the login on; the session also sent %d registrations which a server plugin takes %v each to decide (%v in all, %d answered so far): the server closed the session %v after the login", T, T/3, nreg, regDelay, total, answered, w.Net.Now()-t0)
 				return
 			}
-			c.Ping(true, token)
 		}
 		w.SetSample(map[string]any{"scenario": "never-false-busy", "T": T, "registrations": nreg})
 		w.Nontrivial()
